@@ -1,5 +1,583 @@
 package stablelink
 
-import "testing"
+import (
+	"errors"
+	"fmt"
+	"sort"
+	"strings"
+	"testing"
 
-func TestC19(t *testing.T) { t.Skip("under construction") }
+	"google.golang.org/protobuf/proto"
+	"google.golang.org/protobuf/types/descriptorpb"
+
+	"github.com/bufbuild/protocompile/internal/verifmon/gen"
+	"github.com/bufbuild/protocompile/internal/verifmon/vlib"
+	"github.com/bufbuild/protocompile/linker"
+)
+
+// C19 — unused-import warnings are exact.
+//
+// Oracle: the property's own operational definition. For the explicitly
+// requested file X and each non-public import i: warned(i) ⇔ X without the
+// import line of i still compiles and gives the same descriptor apart from
+// dependency / public_dependency / weak_dependency.
+
+// ---------- builder ----------
+
+var c19OptKinds = []struct{ short, msg string }{
+	{"file", "FileOptions"}, {"msg", "MessageOptions"}, {"fld", "FieldOptions"}, {"oneof", "OneofOptions"}, {"enum", "EnumOptions"},
+	{"val", "EnumValueOptions"}, {"svc", "ServiceOptions"}, {"mtd", "MethodOptions"}, {"rng", "ExtensionRangeOptions"},
+}
+
+var c19SimpleUsages = []string{
+	"field-msg", "field-enum", "map-value", "ext-type", "extendee", "method-in", "method-out",
+	"optname:file", "optname:msg", "optname:fld", "optname:oneof", "optname:enum", "optname:val", "optname:svc", "optname:mtd", "optname:rng",
+}
+
+type c19Import struct {
+	Path    string `json:"path"`
+	Usage   string `json:"usage"`
+	Public  bool   `json:"public"`
+	Rel     bool   `json:"relative_reference"`
+	Partial bool   `json:"partially_qualified"`
+	Pkg     string `json:"package"`
+	// by-construction expectation (cross-check of the builder, not the oracle)
+	ExpectRemovable bool `json:"expect_removable"`
+	// redundant-provider class
+	Redundant string `json:"redundant,omitempty"`
+	idx       int
+}
+
+type c19Case struct {
+	src     map[string]string
+	xName   string
+	imports []*c19Import
+	header  string
+	body    string
+	class   string // "unique" or "redundant:<shape>"
+}
+
+func (c *c19Case) renderX(skip int) string {
+	var sb strings.Builder
+	sb.WriteString(c.header)
+	for k, im := range c.imports {
+		if k == skip {
+			continue
+		}
+		mod := ""
+		if im.Public {
+			mod = "public "
+		}
+		fmt.Fprintf(&sb, "import %s%q;\n", mod, im.Path)
+	}
+	sb.WriteString(c.body)
+	return sb.String()
+}
+
+// provider writes provider file number i. extendsBase: it imports base.proto
+// and extends base.BaseOpt.
+func c19Provider(i int, pkg string, extendsBase bool) string {
+	var sb strings.Builder
+	sb.WriteString("syntax = \"proto2\";\n")
+	fmt.Fprintf(&sb, "package %s;\n", pkg)
+	sb.WriteString("import \"google/protobuf/descriptor.proto\";\n")
+	if extendsBase {
+		sb.WriteString("import \"base.proto\";\n")
+	}
+	fmt.Fprintf(&sb, "message M%d { optional int32 f = 1; extensions 100 to 199; }\n", i)
+	fmt.Fprintf(&sb, "enum E%d { E%d_ZERO = 0; E%d_ONE = 1; }\n", i, i, i)
+	for k, ok := range c19OptKinds {
+		fmt.Fprintf(&sb, "extend google.protobuf.%s { optional int32 %s_o%d = %d; }\n", ok.msg, ok.short, i, 50000+i*20+k)
+	}
+	if extendsBase {
+		fmt.Fprintf(&sb, "extend base.BaseOpt { optional int32 bx%d = %d; }\n", i, 100+i)
+	}
+	return sb.String()
+}
+
+const c19Base = `syntax = "proto2";
+package base;
+import "google/protobuf/descriptor.proto";
+import "google/protobuf/any.proto";
+message BaseOpt { optional int32 v = 1; optional BaseOpt child = 2; optional google.protobuf.Any any = 3; extensions 100 to 199; }
+extend google.protobuf.MessageOptions { optional BaseOpt bopt = 49001; optional google.protobuf.Any bany = 49002; }
+`
+
+// usage snippet for provider i inside X. ref(name) spells a reference to a
+// symbol of the provider's package. lbl is "optional " in proto2, "" in editions.
+func c19Snippet(usage string, i int, ref func(string) string, optRef func(string) string, full func(string) string, lbl string) (fileLevel, decl string) {
+	M, E := ref(fmt.Sprintf("M%d", i)), ref(fmt.Sprintf("E%d", i))
+	o := func(short string) string { return optRef(fmt.Sprintf("%s_o%d", short, i)) }
+	switch usage {
+	case "field-msg":
+		return "", fmt.Sprintf("message U%d { %s%s f = 1; }\n", i, lbl, M)
+	case "field-enum":
+		return "", fmt.Sprintf("message U%d { %s%s e = 1 [default = E%d_ONE]; }\n", i, lbl, E, i)
+	case "map-value":
+		return "", fmt.Sprintf("message U%d { map<string, %s> m = 1; }\n", i, M)
+	case "ext-type":
+		return "", fmt.Sprintf("message U%d { extensions 100 to 110; }\nextend U%d { %s%s ux%d = 100; }\n", i, i, lbl, M, i)
+	case "extendee":
+		return "", fmt.Sprintf("extend %s { %sint32 xx%d = 150; }\n", M, lbl, i)
+	case "method-in":
+		return "", fmt.Sprintf("service US%d { rpc R(%s) returns (Own); }\n", i, M)
+	case "method-out":
+		return "", fmt.Sprintf("service US%d { rpc R(Own) returns (stream %s); }\n", i, M)
+	case "optname:file":
+		return fmt.Sprintf("option (%s) = %d;\n", o("file"), i), ""
+	case "optname:msg":
+		return "", fmt.Sprintf("message U%d { option (%s) = 1; }\n", i, o("msg"))
+	case "optname:fld":
+		return "", fmt.Sprintf("message U%d { %sint32 f = 1 [(%s) = 1]; }\n", i, lbl, o("fld"))
+	case "optname:oneof":
+		return "", fmt.Sprintf("message U%d { oneof o { option (%s) = 1; int32 a = 1; } }\n", i, o("oneof"))
+	case "optname:enum":
+		return "", fmt.Sprintf("enum UE%d { option (%s) = 1; UE%d_Z = 0; }\n", i, o("enum"), i)
+	case "optname:val":
+		return "", fmt.Sprintf("enum UE%d { UE%d_Z = 0 [(%s) = 1]; }\n", i, i, o("val"))
+	case "optname:svc":
+		return "", fmt.Sprintf("service US%d { option (%s) = 1; }\n", i, o("svc"))
+	case "optname:mtd":
+		return "", fmt.Sprintf("service US%d { rpc R(Own) returns (Own) { option (%s) = 1; } }\n", i, o("mtd"))
+	case "optname:rng":
+		return "", fmt.Sprintf("message U%d { extensions 10 to 20 [(%s) = 1]; }\n", i, o("rng"))
+	case "optname-part2":
+		return "", fmt.Sprintf("message U%d { option (base.bopt).(%s) = 1; }\n", i, optRef(fmt.Sprintf("bx%d", i)))
+	case "optname-part3":
+		return "", fmt.Sprintf("message U%d { option (base.bopt).child.(%s) = 1; }\n", i, optRef(fmt.Sprintf("bx%d", i)))
+	case "literal-ext":
+		return "", fmt.Sprintf("message U%d { option (base.bopt) = { v: 2 [%s]: 1 }; }\n", i, strings.TrimPrefix(optRef(fmt.Sprintf("bx%d", i)), "."))
+	case "literal-ext-nested":
+		return "", fmt.Sprintf("message U%d { option (base.bopt) = { child { [%s]: 1 } }; }\n", i, strings.TrimPrefix(optRef(fmt.Sprintf("bx%d", i)), "."))
+	case "any-url":
+		return "", fmt.Sprintf("message U%d { option (base.bany) = { [type.googleapis.com/%s] { f: 1 } }; }\n", i, full(fmt.Sprintf("M%d", i)))
+	case "any-url-nested":
+		return "", fmt.Sprintf("message U%d { option (base.bopt) = { any { [type.googleapis.com/%s] { f: 1 } } }; }\n", i, full(fmt.Sprintf("M%d", i)))
+	case "related-unnamed":
+		return "", fmt.Sprintf("message U%d { option (top.tmsg%d) = { f: 1 }; option (top.tenum%d) = E%d_ONE; }\n", i, i, i, i)
+	case "unused":
+		return "", ""
+	}
+	panic("unknown usage " + usage)
+}
+
+var c19PkgPool = []string{"a", "a.b", "a.b.c", "b", "c.d", "a.c"}
+
+// buildC19 builds one case. redundant == "" builds a deciding-set case
+// (every symbol reachable through exactly one import of X).
+func buildC19(rng *vlib.RNG, redundant string) *c19Case {
+	c := &c19Case{src: map[string]string{}, xName: "x.proto", class: "unique"}
+	editions := rng.Chance(0.3)
+	lbl := "optional "
+	if editions {
+		c.header = "edition = \"2023\";\n"
+		lbl = ""
+	} else if rng.Chance(0.85) {
+		c.header = "syntax = \"proto2\";\n"
+	}
+	xpkg := vlib.Pick(rng, []string{"x", "", "x.y", "a.x", "a.b.x"})
+	if xpkg != "" {
+		c.header += "package " + xpkg + ";\n"
+	}
+	n := rng.Range(2, 6)
+	needBase, needTop := false, false
+	var topImports, topDecls []string
+	var fileLevel, decls []string
+	decls = append(decls, "message Own {}\n")
+	sharePkgs := rng.Chance(0.5)
+	pkgs := make([]string, n+1)
+	allPkgs := []string{"base", "top", "rs", "rb", "rc", "google.protobuf"}
+	for i := 1; i <= n; i++ {
+		pkgs[i] = fmt.Sprintf("pk%d", i)
+		if sharePkgs {
+			pkgs[i] = vlib.Pick(rng, c19PkgPool)
+		}
+		allPkgs = append(allPkgs, pkgs[i], fmt.Sprintf("re%d", i))
+	}
+	// relOK: a relative reference pkg.Name from X's package resolves at the root
+	// only if no enclosing package scope of X has a package named like its first component.
+	relOK := func(refPkg string) bool {
+		first := strings.SplitN(refPkg, ".", 2)[0]
+		parts := strings.Split(xpkg, ".")
+		if xpkg == "" {
+			parts = nil
+		}
+		for k := 1; k <= len(parts); k++ {
+			cand := strings.Join(parts[:k], ".") + "." + first
+			for _, p := range append(allPkgs, xpkg) {
+				if p == cand || strings.HasPrefix(p, cand+".") {
+					return false
+				}
+			}
+		}
+		return true
+	}
+	for i := 1; i <= n; i++ {
+		im := &c19Import{idx: i}
+		pkg := pkgs[i]
+		im.Pkg = pkg
+		im.Rel = rng.Chance(0.5) && relOK(pkg)
+		// choose the usage
+		var usage string
+		switch k := rng.Intn(20); {
+		case k < 5:
+			usage = "unused"
+		case k < 6:
+			usage = "related-unnamed"
+		case k < 10:
+			usage = vlib.Pick(rng, []string{"optname-part2", "optname-part3", "literal-ext", "literal-ext-nested", "any-url", "any-url-nested"})
+		default:
+			usage = vlib.Pick(rng, c19SimpleUsages)
+		}
+		if strings.HasPrefix(usage, "literal-ext") && !relOK(pkg) {
+			// extension names in message literals cannot carry a leading dot
+			usage = "optname-part2"
+		}
+		viaPublic := usage != "unused" && usage != "related-unnamed" && rng.Chance(0.15)
+		extendsBase := strings.HasPrefix(usage, "optname-part") || strings.HasPrefix(usage, "literal-ext")
+		if extendsBase || strings.HasPrefix(usage, "any-url") {
+			needBase = true
+		}
+		ppath := fmt.Sprintf("p%d.proto", i)
+		if rng.Chance(0.3) {
+			ppath = fmt.Sprintf("dir/p%d.proto", i)
+		}
+		c.src[ppath] = c19Provider(i, pkg, extendsBase)
+		im.Path = ppath
+		im.Usage = usage
+		if viaPublic {
+			rpath := fmt.Sprintf("re%d.proto", i)
+			c.src[rpath] = fmt.Sprintf("syntax = \"proto3\";\npackage re%d;\nimport public %q;\nmessage ReOwn%d {}\n", i, ppath, i)
+			im.Path = rpath
+			im.Usage = "via-public:" + usage
+		}
+		if usage == "related-unnamed" {
+			needTop = true
+			topImports = append(topImports, fmt.Sprintf("import %q;\n", ppath))
+			topDecls = append(topDecls, fmt.Sprintf("extend google.protobuf.MessageOptions { optional .%s.M%d tmsg%d = %d; optional .%s.E%d tenum%d = %d; }\n", pkg, i, i, 48000+2*i, pkg, i, i, 48001+2*i))
+		}
+		im.ExpectRemovable = usage == "unused" || usage == "related-unnamed"
+		if usage != "unused" && rng.Chance(0.08) && !im.ExpectRemovable {
+			// a used import that is public: never warned, not quantified by the removal rule
+			im.Public = true
+		}
+		if usage == "unused" && rng.Chance(0.2) {
+			im.Public = true
+		}
+		// partially-qualified spelling: drop the leading k components that the
+		// provider's package shares with X's package (resolved by the scope walk)
+		spellPkg := pkg
+		if im.Rel && xpkg != "" && rng.Chance(0.7) {
+			xp, pp := strings.Split(xpkg, "."), strings.Split(pkg, ".")
+			common := 0
+			for common < len(xp) && common < len(pp) && xp[common] == pp[common] {
+				common++
+			}
+			if common > 0 {
+				k := rng.Range(1, common)
+				rest := strings.Join(pp[k:], ".")
+				first := strings.SplitN(rest, ".", 2)[0]
+				ok := true
+				if rest != "" {
+					for j := len(xp); j > k; j-- {
+						cand := strings.Join(xp[:j], ".") + "." + first
+						for _, p := range append(allPkgs, xpkg) {
+							if p == cand || strings.HasPrefix(p, cand+".") {
+								ok = false
+							}
+						}
+					}
+				}
+				if ok {
+					spellPkg = rest
+					im.Partial = true
+				}
+			}
+		}
+		ref := func(name string) string {
+			if im.Rel {
+				if spellPkg == "" {
+					return name
+				}
+				return spellPkg + "." + name
+			}
+			return "." + pkg + "." + name
+		}
+		full := func(name string) string { return pkg + "." + name }
+		fl, d := c19Snippet(usage, i, ref, ref, full, lbl)
+		if fl != "" {
+			fileLevel = append(fileLevel, fl)
+		}
+		if d != "" {
+			decls = append(decls, d)
+		}
+		c.imports = append(c.imports, im)
+	}
+	// well-known imports
+	if rng.Chance(0.3) {
+		if rng.Bool() {
+			c.imports = append(c.imports, &c19Import{Path: "google/protobuf/timestamp.proto", Usage: "unused", ExpectRemovable: true, Pkg: "google.protobuf"})
+		} else {
+			c.imports = append(c.imports, &c19Import{Path: "google/protobuf/duration.proto", Usage: "field-msg", Pkg: "google.protobuf"})
+			decls = append(decls, fmt.Sprintf("message UW { %s.google.protobuf.Duration d = 1; }\n", lbl))
+		}
+	}
+	if needBase {
+		c.src["base.proto"] = c19Base
+		c.imports = append(c.imports, &c19Import{Path: "base.proto", Usage: "base (option names of X)", Pkg: "base"})
+	}
+	if needTop {
+		c.src["top.proto"] = "syntax = \"proto2\";\npackage top;\nimport \"google/protobuf/descriptor.proto\";\n" + strings.Join(topImports, "") + strings.Join(topDecls, "")
+		c.imports = append(c.imports, &c19Import{Path: "top.proto", Usage: "top (option names of X)", Pkg: "top"})
+	}
+
+	if redundant != "" {
+		c.class = "redundant:" + redundant
+		// S = message RS in rs.proto, used by X as a field type / option; two routes to it.
+		c.src["rs.proto"] = "syntax = \"proto2\";\npackage rs;\nimport \"google/protobuf/descriptor.proto\";\nmessage RS { optional int32 f = 1; }\nextend google.protobuf.MessageOptions { optional int32 rs_opt = 47001; }\n"
+		reexp := func(name string, via string) {
+			c.src[name] = fmt.Sprintf("syntax = \"proto3\";\npackage %s;\nimport public %q;\nmessage Own_%s {}\n", strings.TrimSuffix(name, ".proto"), via, strings.TrimSuffix(name, ".proto"))
+		}
+		var red []*c19Import
+		switch redundant {
+		case "direct+reexport":
+			reexp("rb.proto", "rs.proto")
+			red = []*c19Import{{Path: "rs.proto", Redundant: "direct"}, {Path: "rb.proto", Redundant: "re-exporter"}}
+		case "two-reexporters":
+			reexp("rb.proto", "rs.proto")
+			reexp("rc.proto", "rs.proto")
+			red = []*c19Import{{Path: "rb.proto", Redundant: "re-exporter"}, {Path: "rc.proto", Redundant: "re-exporter"}}
+		case "chain+direct":
+			reexp("rc.proto", "rs.proto")
+			reexp("rb.proto", "rc.proto")
+			red = []*c19Import{{Path: "rs.proto", Redundant: "direct"}, {Path: "rb.proto", Redundant: "re-exporter (2 hops)"}}
+		case "public+nonpublic":
+			reexp("rb.proto", "rs.proto")
+			red = []*c19Import{{Path: "rs.proto", Redundant: "direct", Public: true}, {Path: "rb.proto", Redundant: "re-exporter"}}
+		default:
+			panic(redundant)
+		}
+		use := vlib.Pick(rng, []string{"field", "option", "method", "both"})
+		switch use {
+		case "field":
+			decls = append(decls, fmt.Sprintf("message UR { %s.rs.RS r = 1; }\n", lbl))
+		case "option":
+			decls = append(decls, "message UR { option (rs.rs_opt) = 1; }\n")
+		case "method":
+			decls = append(decls, "service URS { rpc R(.rs.RS) returns (rs.RS); }\n")
+		default:
+			decls = append(decls, fmt.Sprintf("message UR { option (.rs.rs_opt) = 1; %srs.RS r = 1; }\n", lbl))
+		}
+		for _, im := range red {
+			im.Usage = "redundant:" + use
+			im.Pkg = "rs"
+			c.imports = append(c.imports, im)
+		}
+	}
+	vlib.Shuffle(rng, c.imports)
+	// interleave file-level options and declarations
+	vlib.Shuffle(rng, decls)
+	c.body = strings.Join(fileLevel, "") + strings.Join(decls, "")
+	c.src[c.xName] = c.renderX(-1)
+	return c
+}
+
+// ---------- observation ----------
+
+func unusedWarnings(out *gen.Outcome) map[string][]string {
+	w := map[string][]string{} // file -> warned import paths
+	for _, e := range out.WarnObjs {
+		var ui linker.ErrorUnusedImport
+		if errors.As(e, &ui) {
+			w[e.GetPosition().Filename] = append(w[e.GetPosition().Filename], ui.UnusedImport())
+		}
+	}
+	return w
+}
+
+// stripDeps re-decodes fd without any resolver (custom options become unknown
+// fields, so that descriptors from two separate compilations are comparable
+// with proto.Equal) and clears the dependency lists.
+func stripDeps(fd *descriptorpb.FileDescriptorProto) *descriptorpb.FileDescriptorProto {
+	c := &descriptorpb.FileDescriptorProto{}
+	if fd == nil {
+		return c
+	}
+	if err := proto.Unmarshal(gen.DetBytes(fd), c); err != nil {
+		panic(err)
+	}
+	c.Dependency, c.PublicDependency, c.WeakDependency = nil, nil, nil
+	c.SourceCodeInfo = nil
+	return c
+}
+
+func TestC19(t *testing.T) {
+	r := vlib.Start(t, "C19")
+	defer r.Finish()
+	r.Extra("rule", "built files X (proto2 or edition 2023, 5 package shapes) with 2-6 provider imports (+ optional well-known import, base.proto/top.proto helper imports), import order shuffled; each provider is used by X through exactly one of: "+
+		"message field type, enum field type (+default), map value type, extension type, extendee, method input, method output, custom option name on file/message/field/oneof/enum/enum value/service/method/extension range, second/third option name part, extension name in a message literal (top level / nested), Any type URL in a message literal (top level / nested), "+
+		"the same through a pure re-exporter (import public), a related-but-unnamed import (its types are only the value types of options defined elsewhere), or not at all; references relative or leading-dot; provider packages unique or drawn from a small pool with shared prefixes; some imports public. "+
+		"Oracle = removal differential: for each non-public import i, X minus the import line is compiled (explicitly requested) and compared (accepted? descriptor equal apart from dependency/public_dependency/weak_dependency?) — warned(i) must hold iff removable(i); a public import must never be warned; warnings must name imports of X. "+
+		"Deciding set = every symbol reachable through exactly one import. Separate class 'redundant:*' = one symbol reachable through two imports (direct + re-exporter, two re-exporters, 2-hop chain + direct, public + non-public), reported under its own (kind, sig). "+
+		"one evaluation = one (case, import); non-trivial = X accepted with >=1 used and >=1 removable import; distinct = sources of X and providers")
+	r.Extra("assumptions", []string{
+		"the removal differential is run with the same compiler, so it decides only the warning logic, not resolution itself (C15/C18 do that)",
+		"by-construction expectation (unused / related-unnamed imports are the removable ones) is used as a cross-check of the builder: a disagreement with the removal differential is reported as inconclusive, not as a violation",
+	})
+	shapes := []string{"direct+reexport", "two-reexporters", "chain+direct", "public+nonpublic"}
+	n := r.N(400, 8000)
+	r.Par(n, func(i int) {
+		id := fmt.Sprintf("u/%d", i)
+		redundant := ""
+		if i%5 == 4 {
+			redundant = shapes[(i/5)%len(shapes)]
+			id = fmt.Sprintf("red/%s/%d", redundant, i)
+		}
+		if !r.Want(id) {
+			return
+		}
+		c := buildC19(r.Rng(id), redundant)
+		runC19(r, id, c, i)
+	})
+}
+
+func runC19(r *vlib.Run, id string, c *c19Case, salt int) {
+	par := 1 + (salt%2)*7
+	out := gen.Compile(c.src, []string{c.xName}, gen.Opts{Par: par})
+	wit := func(extra map[string]any) map[string]any {
+		extra["sources"] = c.src
+		extra["imports"] = c.imports
+		extra["class"] = c.class
+		return extra
+	}
+	if !out.OK() {
+		r.Inconclusive("built file X is rejected (builder bug or resolution defect): " + gen.ClassifyErr(out.ErrSummary()))
+		r.Sample("rejected-x", wit(map[string]any{"errors": out.ErrSummary()}))
+		return
+	}
+	base := gen.Protos(out.Files)[c.xName]
+	if base == nil {
+		r.Inconclusive("no descriptor for X")
+		return
+	}
+	warned := map[string]int{}
+	ws := unusedWarnings(out)
+	for f, paths := range ws {
+		for _, p := range paths {
+			if f != c.xName {
+				r.Class("unused-import warnings positioned in a non-explicit file (observed)")
+				continue
+			}
+			warned[p]++
+		}
+	}
+	known := map[string]*c19Import{}
+	for _, im := range c.imports {
+		known[im.Path] = im
+	}
+	for p, k := range warned {
+		if known[p] == nil {
+			r.Violation("c19.unknown-warning", "unused-import warning names a path that X does not import", id, wit(map[string]any{"warned": p}))
+		}
+		if k > 1 {
+			r.Violation("c19.duplicate-warning", "the same import is reported unused more than once", id, wit(map[string]any{"warned": p, "times": k}))
+		}
+	}
+	baseStripped := stripDeps(base)
+	nUsed, nRemovable := 0, 0
+	var evaluated []string
+	// the first import (in X's order) through which the redundant symbol is visible
+	firstRed := -1
+	for k, im := range c.imports {
+		if im.Redundant != "" && firstRed < 0 {
+			firstRed = k
+		}
+	}
+	for k, im := range c.imports {
+		iid := fmt.Sprintf("%s/%s", id, im.Path)
+		if !r.Want(iid) {
+			continue
+		}
+		isWarned := warned[im.Path] > 0
+		cls := "unique provider: " + im.Usage
+		if im.Redundant != "" {
+			pos := "searched later"
+			if k == firstRed {
+				pos = "searched first"
+			}
+			cls = fmt.Sprintf("redundant provider (%s): %s, %s", strings.TrimPrefix(c.class, "redundant:"), im.Redundant, pos)
+		} else if c.class != "unique" {
+			cls = "unique provider next to a redundant pair: " + im.Usage
+		}
+		if im.Public {
+			evaluated = append(evaluated, "")
+			r.Class("public imports (must never be warned)")
+			if isWarned {
+				r.Violation("c19.public-warned", "a public import is reported unused ("+cls+")", iid, wit(map[string]any{"import": im}))
+			}
+			continue
+		}
+		// removal differential
+		src2 := map[string]string{}
+		for n, s := range c.src {
+			src2[n] = s
+		}
+		src2[c.xName] = c.renderX(k)
+		out2 := gen.Compile(src2, []string{c.xName}, gen.Opts{Par: 1})
+		removable := false
+		why := ""
+		if out2.Panic != nil {
+			r.Violation("compile.panic", "panic compiling X without one import", iid, wit(map[string]any{"import": im, "panic": fmt.Sprint(out2.Panic)}))
+			continue
+		}
+		if !out2.OK() {
+			why = "compilation fails: " + gen.ClassifyErr(out2.ErrSummary())
+		} else {
+			got := gen.Protos(out2.Files)[c.xName]
+			if got != nil && proto.Equal(stripDeps(got), baseStripped) {
+				removable = true
+			} else {
+				why = "descriptor changes: " + gen.DiffClass(gen.Diff(stripDeps(got), baseStripped))
+			}
+		}
+		if removable {
+			nRemovable++
+		} else {
+			nUsed++
+		}
+		evaluated = append(evaluated, im.Path)
+		r.Class(fmt.Sprintf("%s | removable=%v warned=%v", cls, removable, isWarned))
+		if im.Redundant == "" && removable != im.ExpectRemovable {
+			// the builder's claim about this import is wrong, or resolution leaks: not C19's verdict
+			r.Inconclusive(fmt.Sprintf("builder expectation differs from removal differential for %s: removable=%v (%s)", cls, removable, why))
+			r.Sample("builder-mismatch", wit(map[string]any{"import": im, "why": why}))
+			continue
+		}
+		w := wit(map[string]any{"import": im, "import_index_in_x": k, "removable": removable, "removal_result": why, "warned_imports": sortedKeys(warned), "x_without_import": src2[c.xName]})
+		switch {
+		case isWarned && !removable:
+			kind := "c19.warned-but-needed"
+			if im.Redundant != "" {
+				kind = "c19.redundant.warned-but-needed"
+			}
+			r.Violation(kind, cls+": reported unused, but removing it "+strings.SplitN(why, ":", 2)[0], iid, w)
+		case !isWarned && removable:
+			kind := "c19.removable-not-warned"
+			if im.Redundant != "" {
+				kind = "c19.redundant.removable-not-warned"
+			}
+			r.Violation(kind, cls+": removing it changes nothing, yet it is not reported unused", iid, w)
+		}
+	}
+	for _, p := range evaluated {
+		if nUsed > 0 && nRemovable > 0 && p != "" {
+			r.Eval(gen.SrcKey(c.src) + "\x00" + p)
+		} else {
+			r.Eval("")
+		}
+	}
+	if salt < 3 {
+		r.Sample("case:"+c.class, map[string]any{"sources": c.src, "imports": c.imports, "warned": sortedKeys(warned)})
+	}
+	_ = sort.Strings
+}
